@@ -507,3 +507,63 @@ def compound_candidates():
     for q in queries:
         for d in docs:
             yield {"query": q, "document": d}
+
+
+# ---- C11: JSON text / readable file / parsed value
+
+def document_forms_replay(meth):
+    def replay(inputs):
+        import io
+        import json
+
+        jp = importlib.import_module("jsonpath")
+        q, data = inputs.get("query"), inputs.get("document")
+        if q is None:
+            return None  # abstract counter-model: the witness search supplies real queries and documents
+        p = jp.compile(q)
+        text = json.dumps(data)
+
+        def run(doc):
+            try:
+                if meth == "findall":
+                    return p.findall(doc)
+                if meth == "findall_async":
+                    return asyncio.run(p.findall_async(doc))
+                if meth == "finditer":
+                    return [(m.obj, m.path) for m in p.finditer(doc)]
+                if meth == "finditer_async":
+
+                    async def go():
+                        return [(m.obj, m.path) async for m in await p.finditer_async(doc)]
+
+                    return asyncio.run(go())
+                m = p.match(doc)
+                return None if m is None else (m.obj, m.path)
+            except Exception as e:  # noqa: BLE001
+                return f"raises {type(e).__name__}: {e}"
+
+        want = run(json.loads(text))
+        for form, doc in (("JSON text", text), ("a readable file", io.StringIO(text))):
+            got = run(doc)
+            if got != want:
+                return f"compile({q!r}).{meth}(<{form} {text!r}>) -> {got!r}, on the parsed value -> {want!r}"
+        return None
+
+    return replay
+
+
+def document_forms_candidates():
+    docs = [{"a": [1, 2, {"b": "x"}], "c": "[1]"}, [1, [2, 3], {"a": None}], {}, [], {"a": {"b": {"c": 1}}}]
+    queries = ["$", "$.a", "$..*", "$[*]", "$.a[0]", "$[?@.b]", "$.c", "^[0]"]
+    for q in queries:
+        for d in docs:
+            yield {"query": q, "document": d}
+
+
+def compound_forms_replay(meth):
+    inner = document_forms_replay(meth)
+
+    def replay(inputs):
+        return inner(inputs) if inputs.get("query") else None
+
+    return replay
